@@ -98,6 +98,13 @@ class Interp:
     # helpers
     # ------------------------------------------------------------------
     def raise_(self, cls, *args, node=None):
+        import os
+
+        if os.environ.get("PYVC_DEBUG_EXC") and cls.__name__ in os.environ["PYVC_DEBUG_EXC"]:
+            import traceback
+
+            print("DEBUG raise", cls.__name__, args, "line", getattr(node, "lineno", None))
+            traceback.print_stack(limit=6)
         raise PyExc(cls, args, where=getattr(node, "lineno", None))
 
     def outside(self, msg, node=None):
@@ -474,6 +481,8 @@ class Interp:
             return Opaque(OPAQUE_FUNCS[id(fn)] + "()", *args)
         if isinstance(fn, type) and fn in OPAQUE_CLASSES:
             return Opaque(fn.__name__ + "()", *args)
+        if isinstance(fn, type) and fn in getattr(self, "class_call_models", {}):
+            return self.class_call_models[fn](self, args, kwargs)  # e.g. IdMap() -> ghost map with arbitrary content
         if isinstance(fn, types.FunctionType) and fn.__qualname__.split(".")[0] in {c.__name__ for c in OPAQUE_CLASSES} and fn.__module__ in {c.__module__ for c in OPAQUE_CLASSES}:
             return Opaque(fn.__qualname__ + "()", *args)
         if isinstance(fn, BoundMethod):
